@@ -104,6 +104,9 @@ def parse_output(out: str, rc: int, wall: float, cmd: str) -> TLCResult:
     m = re.search(r"Error: Invariant (\S+) is violated", out)
     if m:
         r.violated, r.violation_kind = m.group(1), "invariant"
+    mc = re.search(r"Error: The invariant of (\S+) is equal to FALSE", out)
+    if mc:
+        r.violated, r.violation_kind = mc.group(1), "invariant"
     m2 = re.search(r"Error: Action property (\S+) is violated", out)
     if m2:
         r.violated, r.violation_kind = m2.group(1), "action_property"
